@@ -56,7 +56,7 @@ func H_C13_amounts() {
 		if !verif.Bool("entry") {
 			continue
 		}
-		e := statEntry{denom: []string{nativeDenom, "uother"}[verif.Choose("denom", 2)]}
+		e := statEntry{denom: []string{nativeDenom, "ibc/0AB1"}[verif.Choose("denom", 2)]}
 		e.src, e.dst = drawRoute()
 		e.in, e.out = verif.BigInt("incoming"), verif.BigInt("outgoing")
 		verif.Assume(!e.in.IsNegative() && !e.out.IsNegative())
@@ -74,7 +74,7 @@ func H_C13_amounts() {
 
 	// ---- direct lookup: returns the entry exactly when it is recorded and non-zero, with the recorded values ------------
 	qsrc, qdst := drawRoute()
-	qdenom := []string{nativeDenom, "uother"}[verif.Choose("query-denom", 2)]
+	qdenom := []string{nativeDenom, "ibc/0AB1"}[verif.Choose("query-denom", 2)]
 	resp, err := qs.DispatchedAmounts(w.Ctx, &dispatchertypes.QueryDispatchedAmountsRequest{
 		SourceProtocolId: protoNames[qsrc.ProtocolId-1], SourceCounterpartyId: qsrc.CounterpartyId,
 		DestinationProtocolId: protoNames[qdst.ProtocolId-1], DestinationCounterpartyId: qdst.CounterpartyId, Denom: qdenom,
